@@ -636,6 +636,7 @@ class UpdateAfterHistory(Update):
         interp = Interp(cx)
         mod, cname, node = cx.repo.lookup("ladim.tracker.Tracker.__init__")
         n_obl = len(cx.obls)
+        cx.ghost["history_phase"] = True  # obligations of the earlier call are not this unit's (discarded below)
         interp.call_value(BoundMethod(trk, PyFunc("ladim.tracker.Tracker.__init__", mod, cname, node)), [],
                           dict(advection=self.scheme, diffusion=t0["D"], vertdiff=t0["Dz"], vertical_advection=t0["vertical_advection"], modules=modules))
         # --- an earlier update on an arbitrary well-formed state (its own obligations are not what is verified here)
@@ -647,6 +648,7 @@ class UpdateAfterHistory(Update):
         mod, cname, node = cx.repo.lookup("ladim.tracker.Tracker.update")
         interp.call_value(BoundMethod(trk, PyFunc("ladim.tracker.Tracker.update", mod, cname, node)), [], {})
         del cx.obls[n_obl:]
+        cx.ghost["history_phase"] = False
         cx.ghost["history_draws"] = trk.attrs["rng"].draws if isinstance(trk.attrs.get("rng"), Rng) else 0
         # --- the environment replaces the state (release, removal, IBM ...): the contract's arbitrary pre-state
         trk.attrs["modules"] = dict(state=st, grid=grid, forcing=force, time=timer)
@@ -680,6 +682,7 @@ class DiffuseAfterHistory(Diffuse):
         trk = Obj("ladim.tracker.Tracker")
         interp = Interp(cx)
         n_obl = len(cx.obls)
+        cx.ghost["history_phase"] = True  # obligations of the earlier call are not this unit's (discarded below)
         mod, cname, node = cx.repo.lookup("ladim.tracker.Tracker.__init__")
         interp.call_value(BoundMethod(trk, PyFunc("ladim.tracker.Tracker.__init__", mod, cname, node)), [],
                           dict(advection="", diffusion=t0["D"], vertdiff=t0["Dz"], vertical_advection=t0["vertical_advection"], modules=dict(time=Obj("ladim.timekeeper.TimeKeeper", dt=dt_int))))
@@ -688,6 +691,7 @@ class DiffuseAfterHistory(Diffuse):
         mod, cname, node = cx.repo.lookup("ladim.tracker.Tracker.diffuse")
         interp.call_value(BoundMethod(trk, PyFunc("ladim.tracker.Tracker.diffuse", mod, cname, node)), [hn], {})
         del cx.obls[n_obl:]
+        cx.ghost["history_phase"] = False
         cx.ghost["history_draws"] = trk.attrs["rng"].draws if isinstance(trk.attrs.get("rng"), Rng) else 0
         return Args(self=trk, num_particles=base.num_particles)
 
